@@ -33,7 +33,22 @@ def apply_defect(ws: dict, df: dict) -> tuple[dict, set[str]]:
     d = uni.defs[at]
     root = d["name"].split(".")[0]
     if kind == "missing":
-        add_field(at, ["ref", root + ".Nope", 1, 0])
+        if df.get("like"):
+            # the missing name has a LOOK-ALIKE: a definition whose full name equals the reference with one separator dot replaced by
+            # another character (root.q.Nope is missing, root.q_Nope exists) - still a missing reference
+            glue = ["_", "x", "9", "Q"][df["like"] % 4]
+            taken = {x["name"].lower() for x in uni.defs.values()}
+            like = "%s.q%sNope" % (root, glue)
+            if like.lower() in taken or any(t0 == (root + ".q").lower() or t0.startswith((root + ".q.").lower()) for t0 in taken):
+                raise InvalidScenario("look-alike name taken")
+            for r0 in ws["roots"]:
+                if r0["name"] == root and not r0.get("dup"):
+                    r0["defs"].append({"name": like, "ver": [1, 0], "port": None, "ext": "dsdl", "dep": bool(d.get("dep")),
+                                       "secs": [{"union": False, "hdr": None, "items": [["f", ["u", 8, "s"], "look_alike"]], "seal": "sealed"}]})
+                    break
+            add_field(at, ["ref", root + ".q.Nope", 1, 0])
+        else:
+            add_field(at, ["ref", root + ".Nope", 1, 0])
     elif kind == "missver":
         tgt = uni.defs[df["to"]]
         vers = {tuple(x["ver"]) for x in uni.defs.values() if x["name"] == tgt["name"]}
@@ -193,6 +208,8 @@ class C09(Check):
             ok = True
             if kind == "missver" and rng.random() < 0.4:
                 df["alias"] = rng.randrange(1, 8)
+            if kind == "missing" and rng.random() < 0.5:
+                df["like"] = rng.randrange(1, 9)
             if kind == "case_twin":
                 df["how"], df["spell"] = rng.randrange(2), rng.randrange(2)
             if kind == "dup_ext":
